@@ -3,7 +3,8 @@
       every derived index of the implementation model (trigger index, timeout index, counters) is gone.
       Eviction: while the cap is reached, drop the first-stored entry among those with the earliest deadline
       if that deadline has passed, else the tail of the recency list.
-   2. mspec / m_step : the map specification of C07: key -> latest store, with rise/remove/clear.
+   2. mspec / m_step : the map specification of C07: key -> latest store, with rise/remove/clear; a store that
+      cannot be carried out leaves the key unbound.
    3. Inv : mirror consistency of the four indexes and the counters of the implementation model. *)
 From Coq Require Import NArith ZArith List Bool.
 From CppcmsV Require Import C07.Defs.
@@ -54,7 +55,7 @@ Definition a_clear (a : astate) : astate := mkA [] [] (a_gen a) (a_lim a).
 Definition a_store (now : Z) (k : key) (v : list N) (tin : list key) (d : Z) (g : option N)
                    (f : fault) (nem : list bool) (a : astate) : astate :=
   match f with
-  | FDropBefore => a
+  | FDropBefore => a_delete k a
   | FDropAfterDelete => a_delete k a
   | FClear b => mkA [] [] (if b then bump g (a_gen a) else a_gen a) (a_lim a)
   | FNone =>
@@ -136,11 +137,24 @@ Definition m_gen (g : option N) (f : fault) (cur : N) : N :=
   | _ => cur
   end.
 
+(* what a store call leaves in the specification map.  A store that goes through binds the key to the new
+   entry.  A store that cannot be carried out must not leave older data behind: when the value cannot be
+   copied (FDropBefore) or the size test fires (FDropAfterDelete) the key is unbound - every later fetch of
+   it misses until the next store that goes through; when the allocator fails while the entry is being
+   linked (FClear) the whole map is dropped. *)
+Definition m_store (M : mspec) (k : key) (c : container) (f : fault) : mspec :=
+  match f with
+  | FNone => m_upd M k (Some c)
+  | FDropBefore => m_upd M k None
+  | FDropAfterDelete => m_upd M k None
+  | FClear _ => m_empty
+  end.
+
 Definition m_step (now : Z) (o : op) (Mg : mspec * N) : Z * (mspec * N) :=
   let (M, cur) := Mg in
   match o with
   | Store k v tin d g f _ =>
-      (now, (m_upd M k (Some (mkC v (store_trigs k tin) d (match g with Some x => x | None => cur end))), m_gen g f cur))
+      (now, (m_store M k (mkC v (store_trigs k tin) d (match g with Some x => x | None => cur end)) f, m_gen g f cur))
   | Fetch _ => (now, Mg)
   | Rise t => (now, (m_rise t M, cur))
   | Remove k => (now, (m_upd M k None, cur))
@@ -155,8 +169,8 @@ Fixpoint m_run (now : Z) (ops : list op) (Mg : mspec * N) : Z * (mspec * N) :=
   end.
 
 (* hypotheses on histories *)
-Definition op_no_drop_before (o : op) : Prop :=
-  match o with Store _ _ _ _ _ FDropBefore _ => False | _ => True end.
+(* the store went through *)
+Definition store_ok (f : fault) : bool := match f with FNone => true | _ => false end.
 Definition op_no_fault (o : op) : Prop :=
   match o with Store _ _ _ _ _ f nem => f = FNone /\ nem = [] | _ => True end.
 
